@@ -93,13 +93,13 @@ bool pgm_is_default(const PGM &a) {
 }
 
 struct DynOp {
-    enum Kind { INS, ERASE, INS_RUN, ERASE_RUN, FIND, LB, SCAN, ITER_FROM, RANGE, SIZE_EMPTY, ERASE_ALL } kind;
+    enum Kind { INS, ERASE, INS_RUN, ERASE_RUN, FIND, LB, SCAN, ITER_FROM, RANGE, SIZE_EMPTY, ERASE_ALL, CHURN } kind;
     size_t a = 0, b = 0, c = 0; // universe index / count / stride or second index
     int da = 0, db = 0;         // -1/0/+1 offsets for query keys
 };
 
 inline const char *dyn_op_name(DynOp::Kind k) {
-    static const char *n[] = {"INS", "ERASE", "INS_RUN", "ERASE_RUN", "FIND", "LB", "SCAN", "ITER_FROM", "RANGE", "SIZE_EMPTY", "ERASE_ALL"};
+    static const char *n[] = {"INS", "ERASE", "INS_RUN", "ERASE_RUN", "FIND", "LB", "SCAN", "ITER_FROM", "RANGE", "SIZE_EMPTY", "ERASE_ALL", "CHURN"};
     return n[k];
 }
 
@@ -133,7 +133,7 @@ CaseResult run_dynamic(const RunCtx &ctx, TapeReader &t, unsigned size_hint) {
     // 14..18 levels are live at once (the k-way merge of the iterator, find() and lower_bound() walk all of them)
     const bool deep = sizeof(K) >= 4 && size_hint >= 97 && t.chance(1, 4);
     size_t deep_n = 0;
-    bool deep_full = false;
+    bool deep_full = false, deep_churn = false;
     if (deep) {
         base = t.chance(3, 4) ? 2 : 4;
         lg = __builtin_ctz(base);
@@ -150,7 +150,9 @@ CaseResult run_dynamic(const RunCtx &ctx, TapeReader &t, unsigned size_hint) {
         }
         K start = (K) t.below(1000);
         K stride = (K) (1 + t.below(7));
-        uni.resize(deep_n + 64);
+        // half of the deep histories end with a balanced churn (see DynOp::CHURN): it needs fresh keys for up to two full cascade cycles
+        deep_churn = t.chance(1, 2);
+        uni.resize(deep_n + 64 + (deep_churn ? (size_t(1) << 20) : 0));
         for (size_t i = 0; i < uni.size(); ++i) uni[i] = K(start + stride * K(i));
         meta.recipe = "deep: arithmetic progression start=" + key_str(start) + " stride=" + key_str(stride);
     }
@@ -213,6 +215,12 @@ CaseResult run_dynamic(const RunCtx &ctx, TapeReader &t, unsigned size_hint) {
             sc.kind = c05 ? DynOp::FIND : DynOp::SCAN;
             sc.a = j + 1;
             ops.push_back(sc);
+        }
+        if (deep_churn) {
+            DynOp ch;
+            ch.kind = DynOp::CHURN;
+            ch.a = t.below(2); // who moves first: erase (1) or insert (0)
+            ops.push_back(ch);
         }
         n_ops = 20 + t.below(80);
     }
@@ -526,6 +534,44 @@ CaseResult run_dynamic(const RunCtx &ctx, TapeReader &t, unsigned size_hint) {
                 }
                 if (res.ok && !c15) full_scan();
                 res.label("erase_all");
+                break;
+            }
+            case DynOp::CHURN: {
+                // Balanced churn, steered through the accessor: fresh keys are inserted until a cascade has just emptied every level above
+                // the deepest one; then erases of the oldest keys (they live in the deepest level) alternate with inserts of fresh keys
+                // until the next such cascade.  That merge cancels as many stored keys as it adds (or one more / one fewer, depending on
+                // who moved first and on the parity of the cycle), so the deepest level - tens of thousands of entries - changes its key
+                // set while keeping its size.
+                auto upper_empty = [&]() {
+                    const auto &lv = Acc::levels(*dyn);
+                    unsigned used = Acc::used_levels(*dyn) - Acc::min_level(*dyn);
+                    if (used < 2) return false;
+                    for (unsigned i = 0; i + 1 < used; ++i)
+                        if (!lv[i].empty()) return false;
+                    return !lv[used - 1].empty();
+                };
+                size_t fresh = deep_n + 64, old = 0, guard = 0;
+                while (res.ok && !upper_empty() && fresh < U && guard++ < (size_t(1) << 19)) {
+                    if (do_insert(fresh)) after_update(fresh, true);
+                    ++fresh;
+                }
+                bool erase_turn = op.a & 1, first = true;
+                size_t erased = 0, added = 0;
+                guard = 0;
+                while (res.ok && fresh < U && old < deep_n && guard++ < (size_t(1) << 19)) {
+                    size_t idx = erase_turn ? old++ : fresh++;
+                    bool okk = erase_turn ? do_erase(idx) : do_insert(idx);
+                    (erase_turn ? erased : added) += 1;
+                    if (okk) after_update(idx, true);
+                    erase_turn = !erase_turn;
+                    if (!first && upper_empty()) break;
+                    first = false;
+                }
+                res.label("balanced_churn_into_the_deepest_level");
+                if (erased == added) res.label("balanced_churn_equal_counts");
+                if (res.ok && c15 && !mem) invariants(true);
+                if (res.ok && !c15)
+                    for (int s2 = 0; s2 < 300 && res.ok; ++s2) around(s2 & 1 ? spr.below(old + 64) : deep_n + 64 + spr.below(fresh - deep_n - 64 + 1));
                 break;
             }
             case DynOp::FIND:
